@@ -138,11 +138,22 @@ fn gen_tx(rng: &mut Rng, cfg: &Cfg) -> Tx {
         for _ in 0..nflags {
             bits.extend(FLAG);
         }
+        // Sometimes the line goes idle (mark: 7-20 one-bits, which is also the abort
+        // sequence) after the closing flag and the next frame brings its own flags.
+        let idle_after = rng.chance(1, 6);
+        if idle_after {
+            for _ in 0..rng.range(7, 20) {
+                bits.push(1);
+            }
+            for _ in 0..rng.range(1, 2) {
+                bits.extend(FLAG);
+            }
+        }
         let within = l >= cfg.min && l < cfg.max;
         let at_upper = l == cfg.max && l >= cfg.min;
         // a frame too short to hold a CRC can never be valid with checksum on
         let crc_possible = !cfg.checksum || l >= 2;
-        descr.push(format!("L={l}{}{}", if nflags == 1 { " shared-flag" } else { "" }, if bad_crc { " bad-crc" } else { "" }));
+        descr.push(format!("L={l}{}{}", if nflags == 1 && !idle_after { " shared-flag" } else { "" }, if bad_crc { " bad-crc" } else if idle_after { " then-idle-line" } else { "" }));
         if bad_crc {
             // never demanded; with fix-bits a repair to the original is allowed
             if cfg.fix_bits {
